@@ -186,7 +186,7 @@ FIELDS = [
 POOLS = {
     "i": [None, -3, 0, 1, 2, 2**53 + 1, -(2**62)],
     "f": [None, NAN, -1.5, 0.0, 1.0, 2.5, float("inf"), -0.0],
-    "s": [None, "", "10", "9", "a", "b", "é", "名"],
+    "s": [None, "", "10", "9", "a", "b", "é", "名", "customer-0123456789", "customer-0123456789-a", "customer-0123456789-b"],
     "d": [None, dt.date(2020, 1, 1), dt.date(2020, 1, 2), dt.date(1999, 12, 31)],
     "t": [None, dt.datetime(2020, 1, 1, 0, 0, 0), dt.datetime(2020, 1, 1, 0, 0, 1), dt.datetime(2021, 6, 1)],
     "b": [None, True, False],
